@@ -69,6 +69,10 @@ int fp2_upk(fp2_t c, const fp2_t a) {
 				if (fp_get_bit(t, 0) != b) {
 					fp_neg(t, t);
 				}
+				/* The root zero only matches the bit zero. */
+				result = (fp_get_bit(t, 0) == b);
+			}
+			if (result) {
 				fp_copy(c[0], a[0]);
 				fp_copy(c[1], t);
 			}
